@@ -848,3 +848,67 @@ func verifControlFlushNotAsked[T any](w *verifControlFlusher) func(Observable[T]
 	}
 }
 `
+
+// READLINE-PREFIX-USED: the isPrefix result of (*bufio.Reader).ReadLine is looked at.
+func ruleReadLinePrefixUsed() check.Rule {
+	return check.Rule{
+		Name:        "READLINE-PREFIX-USED",
+		NeedControl: true,
+		Doc:         "(*bufio.Reader).ReadLine returns a fragment and isPrefix == true when the line does not fit the reader's buffer (4096 bytes by default). Every call in the data plugins binds isPrefix to a variable that is read afterwards: a line reader that discards it emits a long line as several lines, so what it emits is not the sequence of lines of its input",
+		Run: func(c *check.Ctx) {
+			m := c.M
+			n := 0
+			for _, p := range m.Pkgs {
+				armed := c.ArmedPkg(p.PkgPath)
+				info := p.TypesInfo
+				for _, f := range p.Syntax {
+					if strings.HasSuffix(c.Prog.Fset.Position(f.Pos()).Filename, "_test.go") {
+						continue
+					}
+					perDecl := map[string]int{}
+					ast.Inspect(f, func(x ast.Node) bool {
+						as, ok := x.(*ast.AssignStmt)
+						if !ok || len(as.Rhs) != 1 || len(as.Lhs) != 3 {
+							return true
+						}
+						call, ok := ast.Unparen(as.Rhs[0]).(*ast.CallExpr)
+						if !ok || !model.IsMethod(model.Callee(info, call), "bufio", "Reader", "ReadLine") {
+							return true
+						}
+						n++
+						dn := enclosingDeclName(m, p, as)
+						perDecl[dn]++
+						key := fmt.Sprintf("%s.%s/readline#%d-prefix-used", model.ShortPkg(p.PkgPath), dn, perDecl[dn])
+						id, _ := as.Lhs[1].(*ast.Ident)
+						used := false
+						if id != nil && id.Name != "_" {
+							o := objOf(info, id)
+							ast.Inspect(f, func(z ast.Node) bool {
+								if u, ok := z.(*ast.Ident); ok && u != id && objOf(info, u) == o {
+									used = true
+								}
+								return !used
+							})
+						}
+						if used {
+							if armed {
+								c.OK(key, call.Pos(), "isPrefix is read")
+							}
+						} else {
+							c.Report(armed, key, call.Pos(), "the isPrefix result of ReadLine is discarded: a line longer than the reader's buffer is delivered as several lines")
+						}
+						return true
+					})
+				}
+			}
+			c.Inc("readline_calls", n)
+		},
+	}
+}
+
+const controlsReadLine = `
+func verifControlReadLineNoPrefix(r *bufio.Reader) ([]byte, error) {
+	line, _, err := r.ReadLine()
+	return line, err
+}
+`
